@@ -52,6 +52,12 @@ impl Shape {
 /// A document with `depth` collections around a scalar. For TOML the root
 /// table counts as the first collection.
 pub fn nested(fmt: Fmt, shape: Shape, depth: usize) -> Option<Vec<u8>> {
+    nested_w(fmt, shape, depth, 0)
+}
+
+/// `width` selects the MessagePack header encoding: 0 fix, 1 16-bit, 2 32-bit,
+/// 3 cycling through all three (ignored for the text formats).
+pub fn nested_w(fmt: Fmt, shape: Shape, depth: usize, width: u8) -> Option<Vec<u8>> {
     if depth == 0 {
         return None;
     }
@@ -71,12 +77,18 @@ pub fn nested(fmt: Fmt, shape: Shape, depth: usize) -> Option<Vec<u8>> {
         }
         Fmt::Msgpack => {
             for i in 0..depth {
-                if shape == Shape::KeyPosition {
-                    out.push(0x81); // the next value is this map's key
-                } else if shape.is_map(i, depth) {
-                    out.extend_from_slice(b"\x81\xa1k");
-                } else {
-                    out.push(0x91);
+                let w = if width == 3 { (i % 3) as u8 } else { width };
+                let map = shape == Shape::KeyPosition || shape.is_map(i, depth);
+                match (map, w) {
+                    (true, 0) => out.push(0x81),
+                    (true, 1) => out.extend_from_slice(b"\xde\x00\x01"),
+                    (true, _) => out.extend_from_slice(b"\xdf\x00\x00\x00\x01"),
+                    (false, 0) => out.push(0x91),
+                    (false, 1) => out.extend_from_slice(b"\xdc\x00\x01"),
+                    (false, _) => out.extend_from_slice(b"\xdd\x00\x00\x00\x01"),
+                }
+                if map && shape != Shape::KeyPosition {
+                    out.extend_from_slice(b"\xa1k"); // key; KeyPosition: the next value is the key
                 }
             }
             out.push(0x01);
@@ -187,7 +199,7 @@ fn target_accepts(fmt: Fmt, shape: Shape, to: Fmt) -> bool {
 }
 
 /// Far-beyond documents: linear-time shapes only (libyaml is quadratic in flow depth).
-fn far_doc(fmt: Fmt, shape: Shape, depth: usize) -> Option<Vec<u8>> {
+fn far_doc(fmt: Fmt, shape: Shape, depth: usize, width: u8) -> Option<Vec<u8>> {
     if fmt == Fmt::Yaml && depth > crate::corpus::LIBYAML_FLOW_DEPTH_CAP {
         // block sequences nest in linear time
         let mut out = b"--- ".to_vec();
@@ -197,7 +209,7 @@ fn far_doc(fmt: Fmt, shape: Shape, depth: usize) -> Option<Vec<u8>> {
         out.extend_from_slice(b"1\n");
         return Some(out);
     }
-    nested(fmt, shape, depth)
+    nested_w(fmt, shape, depth, width)
 }
 
 #[derive(Clone, Debug)]
@@ -208,11 +220,12 @@ struct Probe {
     mode: Mode,
     detect: bool,
     depth: usize,
+    width: u8,
 }
 
 impl Probe {
     fn to_json(&self, unit: &str) -> J {
-        json!({"unit": unit, "fmt": self.fmt.name(), "shape": self.shape.name(), "to": self.to.name(), "mode": self.mode.to_json(), "detect": self.detect, "depth": self.depth})
+        json!({"unit": unit, "fmt": self.fmt.name(), "shape": self.shape.name(), "to": self.to.name(), "mode": self.mode.to_json(), "detect": self.detect, "depth": self.depth, "width": self.width})
     }
     fn from_json(j: &J) -> Option<Probe> {
         Some(Probe {
@@ -222,6 +235,7 @@ impl Probe {
             mode: Mode::from_json(&j["mode"])?,
             detect: j["detect"].as_bool()?,
             depth: j["depth"].as_u64()? as usize,
+            width: j["width"].as_u64().unwrap_or(0) as u8,
         })
     }
 }
@@ -250,7 +264,7 @@ pub fn measured_limit(fmt: Fmt) -> Result<usize, String> {
 }
 
 fn check_probe(p: &Probe, limit: usize) -> Result<bool, String> {
-    let doc = match far_doc(p.fmt, p.shape, p.depth) {
+    let doc = match far_doc(p.fmt, p.shape, p.depth, p.width) {
         Some(d) => d,
         None => return Ok(false),
     };
@@ -286,8 +300,8 @@ fn check_probe(p: &Probe, limit: usize) -> Result<bool, String> {
     }
 }
 
-fn cli_probe(fmt: Fmt, shape: Shape, to: Fmt, depth: usize, limit: usize, bin: Bin, via_stdin: bool) -> Result<(), String> {
-    let doc = far_doc(fmt, shape, depth).ok_or("no document")?;
+fn cli_probe(fmt: Fmt, shape: Shape, to: Fmt, depth: usize, limit: usize, bin: Bin, via_stdin: bool, width: u8) -> Result<(), String> {
+    let doc = far_doc(fmt, shape, depth, width).ok_or("no document")?;
     let sc = Scratch::new("c18");
     let mut args: Vec<std::ffi::OsString> = vec![format!("-f{}", fmt.name()).into(), format!("-t{}", to.name()).into()];
     let res = if via_stdin {
@@ -328,7 +342,7 @@ impl Check for C18 {
         "exploration"
     }
     fn rule(&self) -> String {
-        "Per source format the limit L is MEASURED on a baseline (all-arrays / all-maps documents to MessagePack from a slice, format named; every depth from 1 upwards, which also checks that acceptance is downward closed), required to be exactly 1023 for MessagePack (fixed by the statement) and within the window of the property for the others. Unit 'window' then enumerates EVERY depth in [L-6, L+6] for every nesting shape (all arrays, all maps, alternating, mixed, collection in map-key position for MessagePack and YAML), every target that accepts the shape at depth 2, slice and reader, format named and detected, and requires: translate iff depth <= L. Unit 'scan' (thorough) does the same for every depth from 1 to L+40. Unit 'far' runs depths 10^3, 10^4, 10^5, 10^6 in-process (crash-isolated worker on the default 8 MiB main-thread stack). Unit 'cli' runs the window depths and the far depths through the debug and release binaries, from a file and from stdin: exit 0 iff depth <= L, else 1, never a signal. One evaluation = one (format, shape, target, mode, named/detected, depth) translation or process run; non-trivial = depth within 6 of the limit or beyond it; distinct by hash of the combination.".into()
+        "Per source format the limit L is MEASURED on a baseline (all-arrays / all-maps documents to MessagePack from a slice, format named; every depth from 1 upwards, which also checks that acceptance is downward closed), required to be exactly 1023 for MessagePack (fixed by the statement) and within the window of the property for the others. Unit 'window' then enumerates EVERY depth in [L-6, L+6] for every nesting shape (all arrays, all maps, alternating, mixed, collection in map-key position for MessagePack and YAML; MessagePack additionally with fix, 16-bit, 32-bit and mixed header widths), every target that accepts the shape at depth 2, slice and reader, format named and detected, and requires: translate iff depth <= L. Unit 'scan' (thorough) does the same for every depth from 1 to L+40. Unit 'far' runs depths 10^3, 10^4, 10^5, 10^6 in-process (crash-isolated worker on the default 8 MiB main-thread stack). Unit 'cli' runs the window depths and the far depths through the debug and release binaries, from a file and from stdin: exit 0 iff depth <= L, else 1, never a signal. One evaluation = one (format, shape, target, mode, named/detected, depth) translation or process run; non-trivial = depth within 6 of the limit or beyond it; distinct by hash of the combination.".into()
     }
     fn assumptions(&self) -> Vec<String> {
         vec![
@@ -348,7 +362,7 @@ impl Check for C18 {
         u
     }
     fn required_classes(&self, _tier: Tier) -> Vec<&'static str> {
-        vec!["limit:msgpack:1023", "shape:key_position", "shape:mixed", "detected", "mode:reader", "cli:debug", "cli:release", "far:1000000", "verdict:refused_beyond_limit", "verdict:accepted_within_limit"]
+        vec!["limit:msgpack:1023", "msgpack_wide_headers", "shape:key_position", "shape:mixed", "detected", "mode:reader", "cli:debug", "cli:release", "far:1000000", "verdict:refused_beyond_limit", "verdict:accepted_within_limit"]
     }
     fn run_unit(&self, unit: &Unit, shard: u32, _seed: u64, tier: Tier, rec: &mut Recorder) {
         // limits first (every shard measures them itself: cheap and keeps shards independent)
@@ -417,12 +431,18 @@ impl Check for C18 {
                                         continue;
                                     }
                                     for detect in [false, true] {
-                                        n += 1;
-                                        if n % unit.shards as u64 != shard as u64 {
-                                            continue;
-                                        }
-                                        if !run(Probe { fmt, shape, to, mode: mode.clone(), detect, depth }, unit.name, rec) {
-                                            return;
+                                        let widths: &[u8] = if fmt == Fmt::Msgpack { &[0, 1, 2, 3] } else { &[0] };
+                                        for &width in widths {
+                                            n += 1;
+                                            if n % unit.shards as u64 != shard as u64 {
+                                                continue;
+                                            }
+                                            if width > 0 {
+                                                rec.class("msgpack_wide_headers");
+                                            }
+                                            if !run(Probe { fmt, shape, to, mode: mode.clone(), detect, depth, width }, unit.name, rec) {
+                                                return;
+                                            }
                                         }
                                     }
                                 }
@@ -455,8 +475,11 @@ impl Check for C18 {
                                     // detection hands flow-nested text to libyaml: keep it below the quadratic cap
                                     _ => (Mode::Slice, depth <= crate::corpus::LIBYAML_FLOW_DEPTH_CAP && fmt != Fmt::Toml),
                                 };
-                                if !run(Probe { fmt, shape, to, mode, detect, depth }, "far", rec) {
-                                    return;
+                                let widths: &[u8] = if fmt == Fmt::Msgpack { &[0, 1, 2] } else { &[0] };
+                                for &width in widths {
+                                    if !run(Probe { fmt, shape, to, mode: mode.clone(), detect, depth, width }, "far", rec) {
+                                        return;
+                                    }
                                 }
                                 rec.class(&format!("far:{}", depth));
                             }
@@ -488,8 +511,9 @@ impl Check for C18 {
                                         if depth >= 100_000 && quick && (n / unit.shards as u64) % 2 == 0 {
                                             continue;
                                         }
-                                        let cj = json!({"unit": "cli", "fmt": fmt.name(), "shape": shape.name(), "to": to.name(), "depth": depth, "bin": bin.name(), "stdin": via_stdin});
-                                        if let Err(m) = cli_probe(fmt, shape, to, depth, limit, bin, via_stdin) {
+                                        let width = if fmt == Fmt::Msgpack { (n % 3) as u8 } else { 0 };
+                                        let cj = json!({"unit": "cli", "fmt": fmt.name(), "shape": shape.name(), "to": to.name(), "depth": depth, "bin": bin.name(), "stdin": via_stdin, "width": width});
+                                        if let Err(m) = cli_probe(fmt, shape, to, depth, limit, bin, via_stdin, width) {
                                             rec.fail(m, cj);
                                             return;
                                         }
@@ -533,6 +557,7 @@ impl Check for C18 {
                 limit,
                 Bin::from_name(case["bin"].as_str().unwrap_or("release")).ok_or("bad bin")?,
                 case["stdin"].as_bool().unwrap_or(false),
+                case["width"].as_u64().unwrap_or(0) as u8,
             );
         }
         check_probe(&Probe::from_json(case).ok_or("bad probe")?, limit).map(|_| ())
